@@ -3268,7 +3268,12 @@ impl<'i, R: BufRead> XmlRead<'i> for IoReader<R> {
     fn read_to_end(&mut self, name: QName) -> Result<(), DeError> {
         match self.reader.read_to_end_into(name, &mut self.buf) {
             Err(e) => Err(e.into()),
-            Ok(_) => Ok(()),
+            Ok(_) => {
+                // The last consumed event is `End`, so, as after any other markup,
+                // leading spaces of the text that follows should be trimmed
+                self.start_trimmer = StartTrimmer::default();
+                Ok(())
+            }
         }
     }
 
@@ -3337,7 +3342,12 @@ impl<'de> XmlRead<'de> for SliceReader<'de> {
     fn read_to_end(&mut self, name: QName) -> Result<(), DeError> {
         match self.reader.read_to_end(name) {
             Err(e) => Err(e.into()),
-            Ok(_) => Ok(()),
+            Ok(_) => {
+                // The last consumed event is `End`, so, as after any other markup,
+                // leading spaces of the text that follows should be trimmed
+                self.start_trimmer = StartTrimmer::default();
+                Ok(())
+            }
         }
     }
 
